@@ -28,45 +28,54 @@
        chain_hbh_padN                     for every HEL ≤ 31 a header holding ONE PadN option that fills it
        (examples: HEL 2 with router alert, PadN, Pad1, an unknown option of 12 bytes)
   4. NICIRA (class 1) match fields:
-       oxm_nxm                            every TLV of class 1 whose field has a payload decoder in `DecodeMatchField`
-                                          (`Sw3.nxmKind`: 66 fields — registers, arp_sha/tha, ipv6 src/dst, icmpv6 type/code,
-                                          nd_target/sll/tll, ipv6_label, tun_ipv4_src/dst, pkt_mark, conj_id, tun_metadata0..7,
-                                          ct_state/zone/mark/label, tun_ipv6_src/dst, xxreg0..3, ct_nw_proto/src/dst,
-                                          ct_ipv6_src/dst, ct_tp_src/dst), with or without mask
+       oxm_nxm                            every TLV of class 1 whose field has a `case` in `DecodeMatchField` — each of them
+                                          has a payload decoder (`Sw3.nxmKind`: 66 fields — registers, tun_id, arp_sha/tha,
+                                          ipv6 src/dst, icmpv6 type/code, nd_target/sll/tll, ip_frag, ipv6_label, ip_ecn,
+                                          ip_ttl, mpls_ttl, tun_ipv4_src/dst, pkt_mark, tcp_flags, dp_hash, recirc_id, conj_id,
+                                          tun_gbp_id/flags, tun_metadata0..7, tun_flags, ct_state/zone/mark/label,
+                                          tun_ipv6_src/dst, xxreg0..3, ct_nw_proto/src/dst, ct_ipv6_src/dst, ct_tp_src/dst),
+                                          with or without mask
        oxm_nxm_ctState(_masked), oxm_nxm_ctZone, oxm_nxm_ctMark(_masked), oxm_nxm_ctLabel(_masked), oxm_nxm_tunIpv4Src/Dst,
        oxm_nxm_tunMetadata(_masked), oxm_nxm_conjId, oxm_nxm_pktMark(_masked), oxm_nxm_xxreg(_masked), oxm_nxm_ipv6Label
                                           … with the bytes written out
+       oxm_nxm_raw, oxm_nxm_raw_masked    the ELEVEN class-1 fields the library has no Go type for — tun_id 16, ip_frag 26,
+                                          ip_ecn 28, ip_ttl 29, mpls_ttl 30, tcp_flags 34, dp_hash 35, recirc_id 36,
+                                          tun_gbp_id 38, tun_gbp_flags 39, tun_flags 104 (`Sw3.NxmRaw`): ANY payload of the
+                                          length given in the OXM header comes back, byte for byte, in a `ByteArrayField` —
+                                          value, mask and `Len()`.  (Until `DecodeMatchField` was repaired these `case`s had
+                                          no body, the decoder panicked and the whole message was rejected: the former
+                                          counterexamples `nxmNil_field_panics`, `match_nxmNil_panics`,
+                                          `packetIn/flowRemoved/flowStatsReply_nxmNilField_rejected` of this file.)
+       oxm_nxm_tunId(_masked), oxm_nxm_recircId, oxm_nxm_ipFrag_masked, oxm_nxm_tcpFlags_masked
+                                          … with the bytes written out
        match_nxm, packetIn_nxm_match, flowRemoved_nxm_match
                                           a match holding ANY mixed list of basic-class and class-1 TLVs
+       match_nxmRaw, packetIn_nxmRawField, flowRemoved_nxmRawField, flowStatsReply_nxmRawField
+                                          a match holding one of the eleven fields between ANY decodable TLVs — in a packet-in
+                                          (any decodable frame), a flow-removed, a flow-stats reply (between any decodable
+                                          records, with any decodable instructions): everything is handed over
   5. MULTIPART replies of the types without a decoder (group 6, group-desc 7, group-features 8, meter 9, meter-config 10,
      meter-features 11, table-features 12, port-desc 13, experimenter 0xffff, …):
        multipartReply_noDecoder_empty     with an EMPTY body (no groups / no meters configured) the reply parses
        multipartReply_noDecoder_rejected  with ANY non-empty body it is rejected (see below)
 
-  COUNTEREXAMPLES — conforming contents that Parse does NOT hand over:
-       nxmNil_field_panics                the ELEVEN class-1 fields for which `DecodeMatchField` has a `case` WITHOUT a body —
-                                          tun_id 16, ip_frag 26, ip_ecn 28, ip_ttl 29, mpls_ttl 30, tcp_flags 34, dp_hash 35,
-                                          recirc_id 36, tun_gbp_id 38, tun_gbp_flags 39, tun_flags 104: the field decoder calls
-                                          `val.UnmarshalBinary` on a nil interface — it PANICS (for every length, masked or not)
-       match_nxmNil_panics                hence `Match.UnmarshalBinary` panics on a match that holds such a TLV anywhere
-       packetIn_nxmNilField_rejected, flowRemoved_nxmNilField_rejected, flowStatsReply_nxmNilField_rejected
-                                          and Parse (which recovers the panic) rejects the whole packet-in / flow-removed /
-                                          flow-stats reply (after any decodable records, whatever follows); general forms
-                                          `packetIn_badField_rejected`, `flowRemoved_badField_rejected`
+  COUNTEREXAMPLES — contents that Parse does NOT hand over:
        nxmUnknown_field_rejected, packetIn_nxmUnknownField_rejected
                                           class-1 field numbers without a `case` (48..103, 115..118, 126, 127): an error
-     (the example instances at the end of the file — tun_id in a packet-in, recirc_id behind ct_state, `ip_frag=no` in a
-     flow-removed and in a flow-stats reply, a group-desc and a meter-features reply — were replayed against the Go
-     library: `Parse` returns "malformed OpenFlow message: runtime error: invalid memory address or nil pointer
-     dereference" for each of them)
+       otherClass_field_panics            a TLV of a class other than 0x8000 / 1 / 0xffff (NXM_0 = 0, …): `DecodeMatchField`
+                                          calls `log.Panicf` — the field decoder PANICS
+       packetIn_badField_rejected, flowRemoved_badField_rejected, flowStatsReply_panicField_rejected
+                                          general forms: a TLV header on which the field decoder returns an error or panics,
+                                          after any decodable TLVs (records), makes Parse (which recovers the panic) reject
+                                          the whole packet-in / flow-removed / flow-stats reply, whatever follows
        multipartReply_noDecoder_rejected  group / group-desc / group-features / meter / meter-config / meter-features /
                                           table-features (and any other multipart type ≥ 6) with a non-empty body: `repl` stays
                                           nil, the call panics, Parse reports an error — generalises `C04.portDescReply_rejected`
   Remarks (shapes, not defects of C04): the decoder keeps ONE header of each kind, so in a chain that repeats a kind
   the later header replaces the earlier one (`repeated_kind_last_wins`; RFC 8200 lets each of the three kinds occur
   once); nd_sll (24) comes back in an `EthDstField` and nd_tll (25) in an `EthSrcField`; tunnel / ct IPv4 addresses
-  come back in the 16-byte `net.IP` form; a destination-options header (60) is not walked — it and everything behind
-  it are the opaque payload.
+  come back in the 16-byte `net.IP` form; the eleven fields of `Sw3.NxmRaw` come back as raw bytes (tun_id as 8 bytes,
+  not as a number); a destination-options header (60) is not walked — it and everything behind it are the opaque payload.
 
   Helper lemmas: OFV/Lemmas/Sw3Ip4.lean, Sw3Ip6.lean, Sw3Match.lean, Sw3Flow.lean.
 -/
@@ -640,6 +649,67 @@ theorem oxm_nxm_xxreg_masked (n : Nat) (hn : n < 4) (value mask : Bytes) (hl : v
   simp only [Sw3.Nxm.bytes, Sw3.Nxm.toV, Sw3.Nxm.kind, hk, Sw3.NxmVal.bytes, Sw3.NxmVal.toV, hl, hm] at this
   exact this
 
+/-- the ELEVEN class-1 fields the library has no Go type for — NXM_NX_TUN_ID 16, IP_FRAG 26, IP_ECN 28, IP_TTL 29,
+    MPLS_TTL 30, TCP_FLAGS 34, DP_HASH 35, RECIRC_ID 36, TUN_GBP_ID 38, TUN_GBP_FLAGS 39, TUN_FLAGS 104 (`Sw3.NxmRaw`) —
+    without mask: the payload, ANY bytes of the length the TLV's length byte gives (below 128), comes back untouched in a
+    `ByteArrayField` of that length, and `Len()` is the size of the TLV.  (Until `DecodeMatchField` was repaired the
+    field decoder panicked on every one of these TLVs.) -/
+theorem oxm_nxm_raw (f : Nat) (hf : Sw3.NxmRaw f) (data : Bytes) (hl : data.length < 128) :
+    Sw2.FieldDec (be16 1 ++ ([UInt8.ofNat (2 * f), UInt8.ofNat data.length] ++ data))
+      (.obj "MatchField" [.num 1, .num f, .num 0, .num data.length, .num 0,
+        .obj "ByteArrayField" [.bytes data, .num data.length], .nil]) := by
+  have hk := Sw3.nxmKind_raw f hf
+  have := oxm_nxm (Sw3.rawNxm f data none) (Sw3.rawNxm_wf f hk data hl none (by simp))
+  simp only [Sw3.rawNxm, Option.map_none, Sw3.Nxm.bytes, Sw3.Nxm.toV, Sw3.Nxm.kind, hk, Sw3.NxmVal.bytes, Sw3.NxmVal.toV] at this
+  exact this
+
+/-- … with a mask of the same length: mask bit set, length byte = 2·|data|; value and mask are split in the middle and
+    both come back untouched -/
+theorem oxm_nxm_raw_masked (f : Nat) (hf : Sw3.NxmRaw f) (data mask : Bytes) (hl : data.length < 128)
+    (hm : mask.length = data.length) :
+    Sw2.FieldDec (be16 1 ++ ([UInt8.ofNat (2 * f + 1), UInt8.ofNat (data.length + mask.length)] ++ (data ++ mask)))
+      (.obj "MatchField" [.num 1, .num f, .num 1, .num (data.length + mask.length), .num 0,
+        .obj "ByteArrayField" [.bytes data, .num data.length], .obj "ByteArrayField" [.bytes mask, .num mask.length]]) := by
+  have hk := Sw3.nxmKind_raw f hf
+  have := oxm_nxm (Sw3.rawNxm f data (some mask))
+    (Sw3.rawNxm_wf f hk data hl (some mask) (by intro m h; cases h; exact hm))
+  simp only [Sw3.rawNxm, Option.map_some, Sw3.Nxm.bytes, Sw3.Nxm.toV, Sw3.Nxm.kind, hk, Sw3.NxmVal.bytes, Sw3.NxmVal.toV] at this
+  exact this
+
+/-- NXM_NX_TUN_ID (16): the 64-bit tunnel key (VNI, GRE key), which Open vSwitch adds to the packet-in of every packet
+    received through a tunnel — header 00 01 20 08; the eight bytes come back as they are -/
+theorem oxm_nxm_tunId (id : UInt64) :
+    Sw2.FieldDec (be16 1 ++ ([32, 8] ++ be64 id))
+      (.obj "MatchField" [.num 1, .num 16, .num 0, .num 8, .num 0, .obj "ByteArrayField" [.bytes (be64 id), .num 8], .nil]) :=
+  oxm_nxm_raw 16 (by decide) (be64 id) (by show 8 < 128; decide)
+
+/-- tun_id with a mask — header 00 01 21 10, id(8), mask(8) -/
+theorem oxm_nxm_tunId_masked (id mask : UInt64) :
+    Sw2.FieldDec (be16 1 ++ ([33, 16] ++ (be64 id ++ be64 mask)))
+      (.obj "MatchField" [.num 1, .num 16, .num 1, .num 16, .num 0, .obj "ByteArrayField" [.bytes (be64 id), .num 8],
+        .obj "ByteArrayField" [.bytes (be64 mask), .num 8]]) :=
+  oxm_nxm_raw_masked 16 (by decide) (be64 id) (be64 mask) (by show 8 < 128; decide) rfl
+
+/-- NXM_NX_RECIRC_ID (36): 32 bits — header 00 01 48 04 -/
+theorem oxm_nxm_recircId (id : UInt32) :
+    Sw2.FieldDec (be16 1 ++ ([72, 4] ++ be32 id))
+      (.obj "MatchField" [.num 1, .num 36, .num 0, .num 4, .num 0, .obj "ByteArrayField" [.bytes (be32 id), .num 4], .nil]) :=
+  oxm_nxm_raw 36 (by decide) (be32 id) (by show 4 < 128; decide)
+
+/-- NXM_NX_IP_FRAG (26) with its mask (`ip_frag=no` is 0/3, `ip_frag=later` 3/3 …): one byte each — header 00 01 35 02 -/
+theorem oxm_nxm_ipFrag_masked (frag mask : UInt8) :
+    Sw2.FieldDec (be16 1 ++ ([53, 2] ++ ([frag] ++ [mask])))
+      (.obj "MatchField" [.num 1, .num 26, .num 1, .num 2, .num 0, .obj "ByteArrayField" [.bytes [frag], .num 1],
+        .obj "ByteArrayField" [.bytes [mask], .num 1]]) :=
+  oxm_nxm_raw_masked 26 (by decide) [frag] [mask] (by show 1 < 128; decide) rfl
+
+/-- NXM_NX_TCP_FLAGS (34) with a mask (`tcp_flags=+syn-ack` is 0x002/0x012): 16 bits each — header 00 01 45 04 -/
+theorem oxm_nxm_tcpFlags_masked (flags mask : UInt16) :
+    Sw2.FieldDec (be16 1 ++ ([69, 4] ++ (be16 flags ++ be16 mask)))
+      (.obj "MatchField" [.num 1, .num 34, .num 1, .num 4, .num 0, .obj "ByteArrayField" [.bytes (be16 flags), .num 2],
+        .obj "ByteArrayField" [.bytes (be16 mask), .num 2]]) :=
+  oxm_nxm_raw_masked 34 (by decide) (be16 flags) (be16 mask) (by show 2 < 128; decide) rfl
+
 /-- wire form and value of a list of class-1 fields -/
 def nxmPairs (os : List Sw3.Nxm) : List (Bytes × V) := os.map (fun o => (o.bytes, o.toV))
 
@@ -681,6 +751,143 @@ theorem flowRemoved_nxm_match (xid : UInt32) (len : UInt16) (cookie : UInt64) (p
       idleTimeout hardTimeout packetCount byteCount (Sw2.matchV (oxmPairs bs ++ nxmPairs ns))) :=
   flowRemoved_match xid len cookie priority reason tableId durationSec durationNsec idleTimeout hardTimeout packetCount
     byteCount _ _ (match_nxm bs hbs ns hns hlen) depth s hwf hb
+
+/-- wire form and value of the TLV of one of the eleven fields of `Sw3.NxmRaw` holding `data`, with an optional mask -/
+def rawPair (f : Nat) (data : Bytes) (mask : Option Bytes) : Bytes × V :=
+  ((Sw3.rawNxm f data mask).bytes, (Sw3.rawNxm f data mask).toV)
+
+/-- … spelled out, without mask (the TLV and value of `oxm_nxm_raw`) -/
+theorem rawPair_unmasked (f : Nat) (hf : Sw3.NxmRaw f) (data : Bytes) :
+    rawPair f data none = (be16 1 ++ ([UInt8.ofNat (2 * f), UInt8.ofNat data.length] ++ data),
+      .obj "MatchField" [.num 1, .num f, .num 0, .num data.length, .num 0,
+        .obj "ByteArrayField" [.bytes data, .num data.length], .nil]) := by
+  simp only [rawPair, Sw3.rawNxm, Option.map_none, Sw3.Nxm.bytes, Sw3.Nxm.toV, Sw3.Nxm.kind, Sw3.nxmKind_raw f hf,
+    Sw3.NxmVal.bytes, Sw3.NxmVal.toV]
+
+/-- … and with a mask (the TLV and value of `oxm_nxm_raw_masked`) -/
+theorem rawPair_masked (f : Nat) (hf : Sw3.NxmRaw f) (data mask : Bytes) :
+    rawPair f data (some mask)
+      = (be16 1 ++ ([UInt8.ofNat (2 * f + 1), UInt8.ofNat (data.length + mask.length)] ++ (data ++ mask)),
+        .obj "MatchField" [.num 1, .num f, .num 1, .num (data.length + mask.length), .num 0,
+          .obj "ByteArrayField" [.bytes data, .num data.length], .obj "ByteArrayField" [.bytes mask, .num mask.length]]) := by
+  simp only [rawPair, Sw3.rawNxm, Option.map_some, Sw3.Nxm.bytes, Sw3.Nxm.toV, Sw3.Nxm.kind, Sw3.nxmKind_raw f hf,
+    Sw3.NxmVal.bytes, Sw3.NxmVal.toV]
+
+/-- the payload is shorter than 128 bytes and a mask is as long as the value -/
+def RawOK (data : Bytes) (mask : Option Bytes) : Prop := data.length < 128 ∧ ∀ m, mask = some m → m.length = data.length
+
+theorem rawOK_unmasked (data : Bytes) (h : data.length < 128) : RawOK data none := ⟨h, by simp⟩
+theorem rawOK_masked (data mask : Bytes) (h : data.length < 128) (hm : mask.length = data.length) : RawOK data (some mask) :=
+  ⟨h, by intro m e; cases e; exact hm⟩
+
+theorem rawPair_dec (f : Nat) (hf : Sw3.NxmRaw f) (data : Bytes) (mask : Option Bytes) (hok : RawOK data mask) :
+    Sw2.FieldDec (rawPair f data mask).1 (rawPair f data mask).2 :=
+  oxm_nxm _ (Sw3.rawNxm_wf f (Sw3.nxmKind_raw f hf) data hok.1 mask hok.2)
+
+/-- the TLVs of a match that holds a TLV of one of the eleven fields behind the TLVs `fs` and in front of the TLVs `gs` -/
+def rawTlvs (fs : List (Bytes × V)) (f : Nat) (data : Bytes) (mask : Option Bytes) (gs : List (Bytes × V)) : List (Bytes × V) :=
+  fs ++ rawPair f data mask :: gs
+
+/-- a match that holds — after ANY list of decodable TLVs and in front of ANY list of decodable TLVs — a TLV of one of the
+    eleven class-1 fields of `Sw3.NxmRaw` (masked or not, any payload of the announced length) decodes: every field comes
+    back, in order.  (Before the repair `Match.UnmarshalBinary` panicked on every such match.) -/
+theorem match_nxmRaw (fs gs : List (Bytes × V)) (hfs : ∀ p ∈ fs, Sw2.FieldDec p.1 p.2) (hgs : ∀ p ∈ gs, Sw2.FieldDec p.1 p.2)
+    (f : Nat) (hf : Sw3.NxmRaw f) (data : Bytes) (mask : Option Bytes) (hok : RawOK data mask)
+    (hlen : 4 + (Sw2.tlvCat (rawTlvs fs f data mask gs)).length + 7 < 60000) :
+    Sw2.MatchDec (Sw2.matchBytes (rawTlvs fs f data mask gs)) (Sw2.matchV (rawTlvs fs f data mask gs)) :=
+  match_of_tlvs _ (by
+    intro p hp
+    rcases List.mem_append.mp hp with hp | hp
+    · exact hfs p hp
+    · rcases List.mem_cons.mp hp with rfl | hp
+      · exact rawPair_dec f hf data mask hok
+      · exact hgs p hp) hlen
+
+/-- a packet-in whose match contains one of the eleven fields (Open vSwitch adds tun_id / tun_flags to the packet-in of a
+    packet that arrived through a tunnel, and recirc_id / dp_hash / ip_frag appear in its NXM matches) between any
+    decodable TLVs, with ANY decodable Ethernet frame: fixed fields, the whole match and the frame are handed over.
+    (Before the repair Parse rejected the whole message.) -/
+theorem packetIn_nxmRawField (xid : UInt32) (len : UInt16) (bufferId : UInt32) (totalLen : UInt16) (reason tableId : UInt8)
+    (cookie : UInt64) (fs gs : List (Bytes × V)) (hfs : ∀ p ∈ fs, Sw2.FieldDec p.1 p.2) (hgs : ∀ p ∈ gs, Sw2.FieldDec p.1 p.2)
+    (f : Nat) (hf : Sw3.NxmRaw f) (data : Bytes) (mask : Option Bytes) (hok : RawOK data mask)
+    (hlen : 4 + (Sw2.tlvCat (rawTlvs fs f data mask gs)).length + 7 < 60000) (eb : Bytes) (ev : V) (he : FrameDec eb ev)
+    (depth : Nat) (s : Slice) (hwf : s.WF)
+    (hb : s.bytes = hdr 10 len xid ++ packetInFixed bufferId totalLen reason tableId cookie
+      ++ Sw2.matchBytes (rawTlvs fs f data mask gs) ++ zeros 2 ++ eb) :
+    parse depth s = .ok (packetInV (hdrV 10 len.toNat xid) bufferId totalLen reason tableId cookie
+      (Sw2.matchV (rawTlvs fs f data mask gs)) ev) :=
+  packetIn_of xid len bufferId totalLen reason tableId cookie _ _ (match_nxmRaw fs gs hfs hgs f hf data mask hok hlen) eb ev he
+    depth s hwf hb
+
+/-- a flow-removed whose match contains one of the eleven fields (a flow that matched on recirc_id, ip_frag, nw_ttl,
+    tun_id …) between any decodable TLVs is handed over complete -/
+theorem flowRemoved_nxmRawField (xid : UInt32) (len : UInt16) (cookie : UInt64) (priority : UInt16) (reason tableId : UInt8)
+    (durationSec durationNsec : UInt32) (idleTimeout hardTimeout : UInt16) (packetCount byteCount : UInt64)
+    (fs gs : List (Bytes × V)) (hfs : ∀ p ∈ fs, Sw2.FieldDec p.1 p.2) (hgs : ∀ p ∈ gs, Sw2.FieldDec p.1 p.2)
+    (f : Nat) (hf : Sw3.NxmRaw f) (data : Bytes) (mask : Option Bytes) (hok : RawOK data mask)
+    (hlen : 4 + (Sw2.tlvCat (rawTlvs fs f data mask gs)).length + 7 < 60000) (depth : Nat) (s : Slice) (hwf : s.WF)
+    (hb : s.bytes = hdr 11 len xid ++ flowRemovedFixed cookie priority reason tableId durationSec durationNsec
+      idleTimeout hardTimeout packetCount byteCount ++ Sw2.matchBytes (rawTlvs fs f data mask gs)) :
+    parse depth s = .ok (flowRemovedV (hdrV 11 len.toNat xid) cookie priority reason tableId durationSec durationNsec
+      idleTimeout hardTimeout packetCount byteCount (Sw2.matchV (rawTlvs fs f data mask gs))) :=
+  flowRemoved_match xid len cookie priority reason tableId durationSec durationNsec idleTimeout hardTimeout packetCount
+    byteCount _ _ (match_nxmRaw fs gs hfs hgs f hf data mask hok hlen) depth s hwf hb
+
+theorem recsBytes_insert (rs rs2 : List Sw2.FsRec) (r : Sw2.FsRec) :
+    Sw2.recsBytes (rs ++ r :: rs2) = Sw2.recsBytes rs ++ (r.bytes ++ Sw2.recsBytes rs2) := by
+  simp [Sw2.recsBytes]
+
+/-- a multipart flow-stats reply in which — between ANY lists of decodable records `rs`, `rs2` — a record's match holds one
+    of the eleven fields between any decodable TLVs (`fx`: the ten fixed fields of that record; `is`: its instructions,
+    any decodable list): EVERY record of the reply is handed over, in order, that one with its complete match.
+    (`ovs-ofctl dump-flows` shows such matches for every flow that uses recirculation, fragment handling, ttl or
+    tunnel-id matching through the Nicira fields; before the repair not one flow of such a reply reached the controller.) -/
+theorem flowStatsReply_nxmRawField (xid : UInt32) (mpFlags : UInt16) (rs rs2 : List Sw2.FsRec) (hrs : ∀ r ∈ rs, r.OK)
+    (hrs2 : ∀ r ∈ rs2, r.OK) (fx : Sw2.FsRec) (fs gs : List (Bytes × V)) (hfs : ∀ p ∈ fs, Sw2.FieldDec p.1 p.2)
+    (hgs : ∀ p ∈ gs, Sw2.FieldDec p.1 p.2) (f : Nat) (hf : Sw3.NxmRaw f) (data : Bytes) (mask : Option Bytes)
+    (hok : RawOK data mask) (hlen : 4 + (Sw2.tlvCat (rawTlvs fs f data mask gs)).length + 7 < 60000)
+    (is : List (Bytes × V)) (his : ∀ p ∈ is, Sw2.InstrDec p.1 p.2) (recLen total : Nat)
+    (hrec : recLen = 48 + (Sw2.matchBytes (rawTlvs fs f data mask gs)).length + (Sw2.wireCat is).length)
+    (htotal : total = 16 + ((Sw2.recsBytes rs).length + (recLen + (Sw2.recsBytes rs2).length)))
+    (hsize : total < 65536) (depth : Nat) (s : Slice) (hwf : s.WF)
+    (hb : s.bytes = hdr 19 (UInt16.ofNat total) xid ++ be16 1 ++ be16 mpFlags ++ zeros 4 ++ Sw2.recsBytes rs
+      ++ (flowStatsFixed (UInt16.ofNat recLen) fx.tableId fx.durationSec fx.durationNsec fx.priority fx.idleTimeout
+            fx.hardTimeout fx.flags fx.cookie fx.packetCount fx.byteCount
+          ++ Sw2.matchBytes (rawTlvs fs f data mask gs) ++ Sw2.wireCat is)
+      ++ Sw2.recsBytes rs2) :
+    parse depth s = .ok (.obj "MultipartReply" [hdrV 19 total xid, .num 1, .num mpFlags.toNat, .bytes [],
+      .list (rs.map Sw2.FsRec.val
+        ++ flowStatsV recLen fx.tableId fx.durationSec fx.durationNsec fx.priority fx.idleTimeout fx.hardTimeout fx.flags
+            fx.cookie fx.packetCount fx.byteCount (Sw2.matchV (rawTlvs fs f data mask gs)) (is.map Prod.snd)
+          :: rs2.map Sw2.FsRec.val)]) := by
+  subst hrec
+  have hr : (mkRec fx (Sw2.matchBytes (rawTlvs fs f data mask gs)) (Sw2.matchV (rawTlvs fs f data mask gs)) (Sw2.wireCat is)
+      (is.map Prod.snd)).OK :=
+    ⟨match_nxmRaw fs gs hfs hgs f hf data mask hok hlen, instructions_of_list is his (by omega),
+      by show 48 + (Sw2.matchBytes (rawTlvs fs f data mask gs)).length + (Sw2.wireCat is).length < 65536; omega⟩
+  have hlen' : (Sw2.recsBytes (rs ++ mkRec fx (Sw2.matchBytes (rawTlvs fs f data mask gs))
+      (Sw2.matchV (rawTlvs fs f data mask gs)) (Sw2.wireCat is) (is.map Prod.snd) :: rs2)).length
+      = (Sw2.recsBytes rs).length + (48 + (Sw2.matchBytes (rawTlvs fs f data mask gs)).length + (Sw2.wireCat is).length
+          + (Sw2.recsBytes rs2).length) := by
+    rw [recsBytes_insert, List.length_append, List.length_append, Sw2.FsRec.bytes_length]
+    rfl
+  have := flowStatsReply_records xid mpFlags (rs ++ mkRec fx (Sw2.matchBytes (rawTlvs fs f data mask gs))
+      (Sw2.matchV (rawTlvs fs f data mask gs)) (Sw2.wireCat is) (is.map Prod.snd) :: rs2)
+    (by
+      intro r hr'
+      rcases List.mem_append.mp hr' with hr' | hr'
+      · exact hrs r hr'
+      · rcases List.mem_cons.mp hr' with rfl | hr'
+        · exact hr
+        · exact hrs2 r hr')
+    (by rw [hlen']; omega) depth s hwf
+    (by
+      rw [hb, hlen', ← htotal, recsBytes_insert]
+      simp only [hdr, flowStatsFixed, Sw2.FsRec.bytes, Sw2.FsRec.size, mkRec, List.append_assoc])
+  rw [hlen', ← htotal] at this
+  rw [this]
+  simp only [List.map_append, List.map_cons]
+  rfl
 
 /-! ## 5. Multipart replies of the types without a decoder -/
 
@@ -732,16 +939,7 @@ theorem multipartReply_noDecoder_rejected (xid : UInt32) (mpType flags : UInt16)
   rw [Sw.msgLoopW_panic _ _ _ _ _ (by simp; omega) (by simp only [h1, Res.bind_ok, hrec]; rfl)]
   rfl
 
-/-! ## Counterexamples: class-1 fields without a decoder -/
-
-/-- COUNTEREXAMPLE: for the eleven class-1 fields that have a `case` without a body in `DecodeMatchField` — tun_id (16),
-    ip_frag (26), ip_ecn (28), ip_ttl (29), mpls_ttl (30), tcp_flags (34), dp_hash (35), recirc_id (36), tun_gbp_id (38),
-    tun_gbp_flags (39), tun_flags (104) — the field decoder PANICS (a method call on a nil interface), with or without
-    mask bit, whatever the length byte and whatever follows -/
-theorem nxmNil_field_panics (f : Nat) (hf : Sw3.NxmNil f) (hasMask : Bool) (fieldLen : UInt8) (d : Slice) (hwf : d.WF)
-    (rest : Bytes) (hb : d.bytes = be16 1 ++ [UInt8.ofNat (2 * f + (if hasMask then 1 else 0)), fieldLen] ++ rest) :
-    MatchField.unmarshal MatchField.zero d = .panic :=
-  Sw3.fieldPanic_nxmNil f hf (if hasMask then 1 else 0) (by cases hasMask <;> simp) fieldLen d hwf rest hb
+/-! ## Counterexamples: TLVs the field decoder fails on -/
 
 /-- a class-1 field number without any `case` (48..103, 115..118, 126, 127): the field decoder returns an error -/
 theorem nxmUnknown_field_rejected (f : Nat) (hf : Sw3.NxmUnknown f) (hasMask : Bool) (fieldLen : UInt8) (d : Slice)
@@ -750,17 +948,13 @@ theorem nxmUnknown_field_rejected (f : Nat) (hf : Sw3.NxmUnknown f) (hasMask : B
     MatchField.unmarshal MatchField.zero d = .err :=
   Sw3.fieldErr_nxmUnknown f hf (if hasMask then 1 else 0) (by cases hasMask <;> simp) fieldLen d hwf rest hb
 
-/-- COUNTEREXAMPLE: hence `Match.UnmarshalBinary` PANICS on a match that holds — after any list of decodable TLVs — a TLV
-    of one of these eleven fields (`mlen`: the match length, which covers at least that TLV; `tail`: its payload and
-    whatever follows) -/
-theorem match_nxmNil_panics (a b : V) (fs : List (Bytes × V)) (hfs : ∀ p ∈ fs, Sw2.FieldDec p.1 p.2) (f : Nat)
-    (hf : Sw3.NxmNil f) (hasMask : Bool) (fieldLen : UInt8) (mlen : UInt16) (tail : Bytes) (dm : Slice) (hwf : dm.WF)
-    (hmlen : 4 + (Sw2.tlvCat fs).length < mlen.toNat)
-    (hb : dm.bytes = be16 1 ++ be16 mlen ++ Sw2.tlvCat fs
-      ++ (be16 1 ++ [UInt8.ofNat (2 * f + (if hasMask then 1 else 0)), fieldLen]) ++ tail) :
-    Match.unmarshal (.obj "Match" [a, b, .list []]) dm = .panic :=
-  Sw3.match_fieldPanic a b fs hfs _ (Sw3.fieldPanic_nxmNil f hf (if hasMask then 1 else 0) (by cases hasMask <;> simp) fieldLen) mlen tail dm hwf
-    hmlen (by rw [hb]; simp only [List.append_assoc])
+/-- COUNTEREXAMPLE: a TLV of a class `DecodeMatchField` does not know — any class but OPENFLOW_BASIC 0x8000, NXM_1 1,
+    EXPERIMENTER 0xffff; e.g. NXM_0 = 0, the class of the original Nicira fields — makes the field decoder PANIC
+    (`log.Panicf("Unsupported match field …")`), whatever the field byte, the length byte and the payload -/
+theorem otherClass_field_panics (cls : UInt16) (h0 : cls.toNat ≠ 0x8000) (h1 : cls.toNat ≠ 1) (h2 : cls.toNat ≠ 0xffff)
+    (fld fieldLen : UInt8) (d : Slice) (hwf : d.WF) (rest : Bytes) (hb : d.bytes = be16 cls ++ [fld, fieldLen] ++ rest) :
+    MatchField.unmarshal MatchField.zero d = .panic :=
+  Sw3.fieldPanic_otherClass cls h0 h1 h2 fld fieldLen d hwf rest hb
 
 /-- a packet-in whose match holds — after any list of decodable TLVs — a TLV header `bad` on which the field decoder
     returns an error or panics is REJECTED as a whole (Parse recovers a panic into an error) -/
@@ -797,21 +991,6 @@ theorem packetIn_badField_rejected (xid : UInt32) (len : UInt16) (bufferId : UIn
       Sw.byteAt_at s 15 tableId _ (by rw [hb]; rfl),
       Sw.u64From_at s 16 cookie _ (by rw [hb]; rfl), h1, hmatch]
     rfl
-
-/-- COUNTEREXAMPLE: a packet-in whose match contains — after any list of decodable TLVs — one of the eleven class-1
-    fields without a decoder body (Open vSwitch adds tun_id / tun_flags to the packet-in of a packet that arrived through
-    a tunnel, and recirc_id / dp_hash / ip_frag appear in its NXM matches) is REJECTED as a whole: the decoder panics
-    inside `DecodeMatchField`, Parse recovers and returns an error; match, frame and all other fields are lost -/
-theorem packetIn_nxmNilField_rejected (xid : UInt32) (len : UInt16) (bufferId : UInt32) (totalLen : UInt16)
-    (reason tableId : UInt8) (cookie : UInt64) (fs : List (Bytes × V)) (hfs : ∀ p ∈ fs, Sw2.FieldDec p.1 p.2) (f : Nat)
-    (hf : Sw3.NxmNil f) (hasMask : Bool) (fieldLen : UInt8) (mlen : UInt16) (tail : Bytes)
-    (hmlen : 4 + (Sw2.tlvCat fs).length < mlen.toNat) (depth : Nat) (s : Slice) (hwf : s.WF)
-    (hb : s.bytes = hdr 10 len xid ++ packetInFixed bufferId totalLen reason tableId cookie
-      ++ (be16 1 ++ be16 mlen ++ Sw2.tlvCat fs
-        ++ (be16 1 ++ [UInt8.ofNat (2 * f + (if hasMask then 1 else 0)), fieldLen]) ++ tail)) :
-    parse depth s = .err :=
-  packetIn_badField_rejected xid len bufferId totalLen reason tableId cookie fs hfs _
-    (.inr (Sw3.fieldPanic_nxmNil f hf (if hasMask then 1 else 0) (by cases hasMask <;> simp) fieldLen)) mlen tail hmlen depth s hwf hb
 
 /-- a packet-in whose match contains a class-1 field number the library has no `case` for is rejected with an error -/
 theorem packetIn_nxmUnknownField_rejected (xid : UInt32) (len : UInt16) (bufferId : UInt32) (totalLen : UInt16)
@@ -875,53 +1054,32 @@ theorem flowRemoved_badField_rejected (xid : UInt32) (len : UInt16) (cookie : UI
       Sw.u64From_at s 40 byteCount _ (by rw [hb]; rfl), h1, Match.new, hmatch]
     rfl
 
-/-- COUNTEREXAMPLE: a flow-removed whose match contains one of the eleven class-1 fields without a decoder body (a flow
-    that matched on recirc_id, ip_frag, nw_ttl, tun_id …) is REJECTED -/
-theorem flowRemoved_nxmNilField_rejected (xid : UInt32) (len : UInt16) (cookie : UInt64) (priority : UInt16)
-    (reason tableId : UInt8) (durationSec durationNsec : UInt32) (idleTimeout hardTimeout : UInt16)
-    (packetCount byteCount : UInt64) (fs : List (Bytes × V)) (hfs : ∀ p ∈ fs, Sw2.FieldDec p.1 p.2) (f : Nat)
-    (hf : Sw3.NxmNil f) (hasMask : Bool) (fieldLen : UInt8) (mlen : UInt16) (tail : Bytes)
-    (hmlen : 4 + (Sw2.tlvCat fs).length < mlen.toNat) (hsz : 4 + (Sw2.tlvCat fs).length + 7 < 65536)
-    (depth : Nat) (s : Slice) (hwf : s.WF)
-    (hb : s.bytes = hdr 11 len xid ++ flowRemovedFixed cookie priority reason tableId durationSec durationNsec
-      idleTimeout hardTimeout packetCount byteCount ++ (be16 1 ++ be16 mlen ++ Sw2.tlvCat fs
-        ++ (be16 1 ++ [UInt8.ofNat (2 * f + (if hasMask then 1 else 0)), fieldLen]) ++ tail)) :
-    parse depth s = .err :=
-  flowRemoved_badField_rejected xid len cookie priority reason tableId durationSec durationNsec idleTimeout hardTimeout
-    packetCount byteCount fs hfs _ (.inr (Sw3.fieldPanic_nxmNil f hf (if hasMask then 1 else 0) (by cases hasMask <;> simp) fieldLen)) mlen tail hmlen hsz
-    depth s hwf hb
-
-/-- COUNTEREXAMPLE: a multipart flow-stats reply in which — after ANY list of decodable records — comes a record whose match
-    holds, after any list of decodable TLVs, a TLV of one of the eleven class-1 fields without a decoder body (`mtail`: its
-    payload, further TLVs and the padding of the match; `ib`: the record's instructions, any bytes) is REJECTED, whatever
-    follows that record (`tail`): `DecodeMatchField` panics, Parse recovers and returns an error — not one of the flows of
-    the reply reaches the controller.  (`ovs-ofctl dump-flows` shows such matches for every flow that uses recirculation,
-    fragments handling, ttl or tunnel-id matching through the Nicira fields.) -/
-theorem flowStatsReply_nxmNilField_rejected (xid : UInt32) (mpFlags len : UInt16) (rs : List Sw2.FsRec)
-    (hrs : ∀ r ∈ rs, r.OK) (fx : Sw2.FsRec) (fs : List (Bytes × V)) (hfs : ∀ p ∈ fs, Sw2.FieldDec p.1 p.2) (f : Nat)
-    (hf : Sw3.NxmNil f) (hasMask : Bool) (fieldLen : UInt8) (mlen : UInt16) (mtail ib : Bytes)
+/-- a multipart flow-stats reply in which — after ANY list of decodable records — comes a record whose match holds, after any
+    list of decodable TLVs, a TLV header `bad` on which the field decoder PANICS (`mtail`: its payload, further TLVs and
+    the padding of the match; `ib`: the record's instructions, any bytes) is REJECTED, whatever follows that record
+    (`tail`): Parse recovers the panic and returns an error — not one of the flows of the reply reaches the controller.
+    (The counterpart for a TLV the field decoder returns an error on: `C04b.flowStatsReply_unsupportedField_rejected`.) -/
+theorem flowStatsReply_panicField_rejected (xid : UInt32) (mpFlags len : UInt16) (rs : List Sw2.FsRec)
+    (hrs : ∀ r ∈ rs, r.OK) (fx : Sw2.FsRec) (fs : List (Bytes × V)) (hfs : ∀ p ∈ fs, Sw2.FieldDec p.1 p.2) (bad : Bytes)
+    (hbad : Sw3.FieldPanic bad) (mlen : UInt16) (mtail ib : Bytes)
     (hmlen : 4 + (Sw2.tlvCat fs).length < mlen.toNat)
-    (hsize : 48 + (4 + (Sw2.tlvCat fs).length + 4 + mtail.length) + ib.length < 65536)
+    (hsize : 48 + (4 + (Sw2.tlvCat fs).length + bad.length + mtail.length) + ib.length < 65536)
     (tail : Bytes) (hlen : 16 + (Sw2.recsBytes rs).length < len.toNat) (depth : Nat) (s : Slice) (hwf : s.WF)
     (hb : s.bytes = hdr 19 len xid ++ be16 1 ++ be16 mpFlags ++ zeros 4 ++ Sw2.recsBytes rs
-      ++ (flowStatsFixed (UInt16.ofNat (48 + (4 + (Sw2.tlvCat fs).length + 4 + mtail.length) + ib.length))
+      ++ (flowStatsFixed (UInt16.ofNat (48 + (4 + (Sw2.tlvCat fs).length + bad.length + mtail.length) + ib.length))
             fx.tableId fx.durationSec fx.durationNsec fx.priority fx.idleTimeout fx.hardTimeout fx.flags fx.cookie fx.packetCount
             fx.byteCount
-          ++ (be16 1 ++ be16 mlen ++ Sw2.tlvCat fs
-            ++ (be16 1 ++ [UInt8.ofNat (2 * f + (if hasMask then 1 else 0)), fieldLen]) ++ mtail)
+          ++ (be16 1 ++ be16 mlen ++ Sw2.tlvCat fs ++ bad ++ mtail)
           ++ ib)
       ++ tail) :
     parse depth s = .err := by
-  have hmbl : (be16 1 ++ (be16 mlen ++ (Sw2.tlvCat fs
-      ++ (be16 1 ++ ([UInt8.ofNat (2 * f + (if hasMask then 1 else 0)), fieldLen] ++ mtail))))).length
-      = 4 + (Sw2.tlvCat fs).length + 4 + mtail.length := by simp; omega
+  have hmbl : (be16 1 ++ (be16 mlen ++ (Sw2.tlvCat fs ++ (bad ++ mtail)))).length
+      = 4 + (Sw2.tlvCat fs).length + bad.length + mtail.length := by simp; omega
   exact Sw3.flowStats_reply_matchPanic xid mpFlags len rs hrs
-    (mkRec fx (be16 1 ++ (be16 mlen ++ (Sw2.tlvCat fs
-        ++ (be16 1 ++ ([UInt8.ofNat (2 * f + (if hasMask then 1 else 0)), fieldLen] ++ mtail))))) .nil ib [])
+    (mkRec fx (be16 1 ++ (be16 mlen ++ (Sw2.tlvCat fs ++ (bad ++ mtail)))) .nil ib [])
     (by
       intro a b dm hdmwf rest h
-      exact Sw3.match_fieldPanicP a b fs hfs _
-        (Sw3.fieldPanic_nxmNil f hf (if hasMask then 1 else 0) (by cases hasMask <;> simp) fieldLen) mlen (mtail ++ rest) dm
+      exact Sw3.match_fieldPanicP a b fs hfs bad hbad mlen (mtail ++ rest) dm
         hdmwf hmlen (by rw [h]; simp only [mkRec, List.append_assoc]))
     (by simp only [Sw2.FsRec.size, mkRec, hmbl]; omega)
     tail hlen depth s hwf
@@ -1202,47 +1360,122 @@ example : parse 0 (Slice.exact (hdr 19 (UInt16.ofNat (16 + (be16 64 ++ zeros 62)
   multipartReply_noDecoder_rejected 3 12 0 (by decide) (be16 64 ++ zeros 62) (by decide) (by decide) 0 _ (Slice.exact_wf _)
     (Sw.exact_bytes _)
 
-/-! ### class-1 fields without a decoder -/
+/-! ### the eleven class-1 fields held in a byte array (the former counterexample frames) -/
 
-/-- COUNTEREXAMPLE instance: the field decoder on NXM_NX_TUN_ID = 0x2a (00 01 20 08 | 00 00 00 00 00 00 00 2a) panics -/
-example : MatchField.unmarshal MatchField.zero (Slice.exact (be16 1 ++ [UInt8.ofNat (2 * 16 + (if false then 1 else 0)), 8] ++ be64 0x2a))
-    = .panic :=
-  nxmNil_field_panics 16 (by decide) false 8 _ (Slice.exact_wf _) _ (Sw.exact_bytes _)
+example : ∃ fv, Sw2.FieldDec (be16 1 ++ ([UInt8.ofNat (2 * 29), UInt8.ofNat 1] ++ [64])) fv :=
+  ⟨_, oxm_nxm_raw 29 (by decide) [64] (by decide)⟩                                   -- nw_ttl = 64
+example : ∃ fv, Sw2.FieldDec (be16 1 ++ ([UInt8.ofNat (2 * 104 + 1), UInt8.ofNat (2 + 2)] ++ ([0, 1] ++ [0, 1]))) fv :=
+  ⟨_, oxm_nxm_raw_masked 104 (by decide) [0, 1] [0, 1] (by decide) rfl⟩              -- tun_flags = +oam
+example : ∃ fv, Sw2.FieldDec (be16 1 ++ ([33, 16] ++ (be64 0x2a ++ be64 0xffffff))) fv := ⟨_, oxm_nxm_tunId_masked 0x2a 0xffffff⟩
+example : ∃ fv, Sw2.FieldDec (be16 1 ++ ([72, 4] ++ be32 5)) fv := ⟨_, oxm_nxm_recircId 5⟩
+example : ∃ fv, Sw2.FieldDec (be16 1 ++ ([53, 2] ++ ([0] ++ [3]))) fv := ⟨_, oxm_nxm_ipFrag_masked 0 3⟩
+example : ∃ fv, Sw2.FieldDec (be16 1 ++ ([69, 4] ++ (be16 0x002 ++ be16 0x012))) fv := ⟨_, oxm_nxm_tcpFlags_masked 0x002 0x012⟩
+
+/-- the field decoder on NXM_NX_TUN_ID = 0x2a (00 01 20 08 | 00 00 00 00 00 00 00 2a): the eight bytes (it used to panic) -/
+example : MatchField.unmarshal MatchField.zero (Slice.exact (be16 1 ++ ([32, 8] ++ be64 0x2a)))
+    = .ok (.obj "MatchField" [.num 1, .num 16, .num 0, .num 8, .num 0,
+        .obj "ByteArrayField" [.bytes [0, 0, 0, 0, 0, 0, 0, 0x2a], .num 8], .nil]) :=
+  (oxm_nxm_tunId 0x2a).1 _ (Slice.exact_wf _) [] (by rw [Sw.exact_bytes, List.append_nil])
 
 /-- … the same by evaluation -/
-example : MatchField.unmarshal MatchField.zero (Slice.exact [0, 1, 0x20, 8, 0, 0, 0, 0, 0, 0, 0, 0x2a]) = .panic := rfl
+example : MatchField.unmarshal MatchField.zero (Slice.exact [0, 1, 0x20, 8, 0, 0, 0, 0, 0, 0, 0, 0x2a])
+    = .ok (.obj "MatchField" [.num 1, .num 16, .num 0, .num 8, .num 0,
+        .obj "ByteArrayField" [.bytes [0, 0, 0, 0, 0, 0, 0, 0x2a], .num 8], .nil]) := rfl
+
+/-- the in_port = 7 TLV -/
+def inPort7 : List (Bytes × V) := oxmPairs [⟨0, .u32 7, none⟩]
+
+theorem inPort7_dec : ∀ p ∈ inPort7, Sw2.FieldDec p.1 p.2 := by
+  intro p hp
+  obtain ⟨o, ho, rfl⟩ := List.mem_map.mp hp
+  simp only [List.mem_cons, List.not_mem_nil, or_false] at ho
+  subst ho
+  exact oxm_basic ⟨0, .u32 7, none⟩ ⟨"InPortField", rfl, trivial, by simp⟩
+
+/-- the ct_state = 0x21/0x23 TLV -/
+def ctState21 : List (Bytes × V) := nxmPairs [⟨105, .m32 0x21, some (.m32 0x23)⟩]
+
+theorem ctState21_dec : ∀ p ∈ ctState21, Sw2.FieldDec p.1 p.2 := by
+  intro p hp
+  obtain ⟨o, ho, rfl⟩ := List.mem_map.mp hp
+  simp only [List.mem_cons, List.not_mem_nil, or_false] at ho
+  subst ho
+  exact oxm_nxm ⟨105, .m32 0x21, some (.m32 0x23)⟩ (sampleNxms_wf _ (by simp [sampleNxms]))
+
+/-- the LLDP frame of these examples -/
+theorem lldpFrame_dec : FrameDec (ethBytes macA macB 0x88cc [1, 2, 3, 4]) (ethV macA macB 0x88cc [1, 2, 3, 4]) :=
+  eth_untagged macA macB 0x88cc [1, 2, 3, 4] _ rfl rfl (by decide) (l3_other 0x88cc (by decide) (by decide) (by decide) [1, 2, 3, 4])
+
+/-- packet-in of a packet received through a tunnel: in_port 7, tun_id 0x2a (NXM_NX_TUN_ID) — match length 24 — with an
+    LLDP frame; 68 bytes -/
+def pktInTunId : Bytes :=
+  hdr 10 68 3 ++ packetInFixed 0xffffffff 18 0 0 0
+    ++ (be16 1 ++ be16 24 ++ (be16 0x8000 ++ [0, 4] ++ be32 7) ++ (be16 1 ++ [0x20, 8] ++ be64 0x2a))
+    ++ zeros 2 ++ ethBytes macA macB 0x88cc [1, 2, 3, 4]
+
+/-- … parses (it used to be rejected): both fields of the match, the tunnel id as its eight bytes -/
+example : parse 0 (Slice.exact pktInTunId)
+    = .ok (packetInV (hdrV 10 68 3) 0xffffffff 18 0 0 0
+        (.obj "Match" [.num 1, .num 24, .list [
+          .obj "MatchField" [.num 0x8000, .num 0, .num 0, .num 4, .num 0, .obj "InPortField" [.num 7], .nil],
+          .obj "MatchField" [.num 1, .num 16, .num 0, .num 8, .num 0,
+            .obj "ByteArrayField" [.bytes [0, 0, 0, 0, 0, 0, 0, 0x2a], .num 8], .nil]]])
+        (ethV macA macB 0x88cc [1, 2, 3, 4])) :=
+  packetIn_nxmRawField 3 68 0xffffffff 18 0 0 0 inPort7 [] inPort7_dec (by simp) 16 (by decide) (be64 0x2a) none
+    (rawOK_unmasked _ (by decide)) (by decide) _ _ lldpFrame_dec 0 _ (Slice.exact_wf _) (by rw [Sw.exact_bytes]; rfl)
+
+/-- packet-in whose match holds ct_state 0x21/0x23 and then recirc_id 5 (NXM_NX_RECIRC_ID, 36) — match length 24 -/
+def pktInRecirc : Bytes :=
+  hdr 10 68 3 ++ packetInFixed 0xffffffff 18 0 0 0
+    ++ (be16 1 ++ be16 24 ++ (be16 1 ++ [211, 8] ++ be32 0x21 ++ be32 0x23) ++ (be16 1 ++ [72, 4] ++ be32 5))
+    ++ zeros 2 ++ ethBytes macA macB 0x88cc [1, 2, 3, 4]
+
+example : parse 0 (Slice.exact pktInRecirc)
+    = .ok (packetInV (hdrV 10 68 3) 0xffffffff 18 0 0 0
+        (.obj "Match" [.num 1, .num 24, .list [
+          .obj "MatchField" [.num 1, .num 105, .num 1, .num 8, .num 0, .obj "Uint32Message" [.num 0x21],
+            .obj "Uint32Message" [.num 0x23]],
+          .obj "MatchField" [.num 1, .num 36, .num 0, .num 4, .num 0, .obj "ByteArrayField" [.bytes [0, 0, 0, 5], .num 4], .nil]]])
+        (ethV macA macB 0x88cc [1, 2, 3, 4])) :=
+  packetIn_nxmRawField 3 68 0xffffffff 18 0 0 0 ctState21 [] ctState21_dec (by simp) 36 (by decide) (be32 5) none
+    (rawOK_unmasked _ (by decide)) (by decide) _ _ lldpFrame_dec 0 _ (Slice.exact_wf _) (by rw [Sw.exact_bytes]; rfl)
+
+/-- the match `ip_frag = no` (NXM_NX_IP_FRAG 26, value 0, mask 3): length 10, padded to 16 bytes -/
+def matchIpFragNo : Bytes := be16 1 ++ be16 10 ++ (be16 1 ++ [53, 2] ++ [0, 3]) ++ zeros 6
+
+/-- its value -/
+def matchIpFragNoV : V :=
+  .obj "Match" [.num 1, .num 10, .list [.obj "MatchField" [.num 1, .num 26, .num 1, .num 2, .num 0,
+    .obj "ByteArrayField" [.bytes [0], .num 1], .obj "ByteArrayField" [.bytes [3], .num 1]]]]
+
+example : Sw2.MatchDec matchIpFragNo matchIpFragNoV :=
+  match_nxmRaw [] [] (by simp) (by simp) 26 (by decide) [0] (some [3]) (rawOK_masked _ _ (by decide) rfl) (by decide)
+
+/-- flow-removed of a flow that matched `ip_frag = no`: handed over (it used to be rejected) -/
+example : parse 0 (Slice.exact (hdr 11 64 3 ++ flowRemovedFixed 0xc00c1e 100 1 7 60 999 30 0 12 3400 ++ matchIpFragNo))
+    = .ok (flowRemovedV (hdrV 11 64 3) 0xc00c1e 100 1 7 60 999 30 0 12 3400 matchIpFragNoV) :=
+  flowRemoved_nxmRawField 3 64 0xc00c1e 100 1 7 60 999 30 0 12 3400 [] [] (by simp) (by simp) 26 (by decide) [0] (some [3])
+    (rawOK_masked _ _ (by decide) rfl) (by decide) 0 _ (Slice.exact_wf _) (by rw [Sw.exact_bytes]; rfl)
+
+/-- a flow-stats reply with two flows, the first matching `ip_frag = no`, the second everything: both records are handed
+    over (the whole reply used to be rejected) -/
+example : parse 0 (Slice.exact (hdr 19 136 3 ++ be16 1 ++ be16 0 ++ zeros 4
+      ++ (flowStatsFixed 64 3 100 5000 0x8000 60 0 1 0xc00c1e 12 3400 ++ matchIpFragNo)
+      ++ (flowStatsFixed 56 3 100 5000 0x8000 60 0 1 0xc00c1e 12 3400 ++ matchEmpty)))
+    = .ok (.obj "MultipartReply" [hdrV 19 136 3, .num 1, .num 0, .bytes [], .list [
+        flowStatsV 64 3 100 5000 0x8000 60 0 1 0xc00c1e 12 3400 matchIpFragNoV [],
+        flowStatsV 56 3 100 5000 0x8000 60 0 1 0xc00c1e 12 3400 Sw.matchEmptyV []]]) :=
+  flowStatsReply_nxmRawField 3 0 [] [mkRec fxA matchEmpty Sw.matchEmptyV [] []] (by simp)
+    (by intro r hr; simp only [List.mem_cons, List.not_mem_nil, or_false] at hr; subst hr; exact emptyRec_ok fxA)
+    fxA [] [] (by simp) (by simp) 26 (by decide) [0] (some [3]) (rawOK_masked _ _ (by decide) rfl) (by decide)
+    [] (by simp) 64 136 (by decide) (by decide) (by decide) 0 _ (Slice.exact_wf _) (by rw [Sw.exact_bytes]; rfl)
+
+/-! ### TLVs the field decoder fails on -/
 
 /-- field number 50 of class 1 has no `case` -/
 example : MatchField.unmarshal MatchField.zero (Slice.exact (be16 1 ++ [UInt8.ofNat (2 * 50 + (if false then 1 else 0)), 4] ++ be32 1))
     = .err :=
   nxmUnknown_field_rejected 50 (by decide) false 4 _ (Slice.exact_wf _) _ (Sw.exact_bytes _)
-
-/-- COUNTEREXAMPLE instance: packet-in of a packet received through a tunnel: in_port 7, tun_id 0x2a (NXM_NX_TUN_ID) —
-    match length 24 — with an LLDP frame: REJECTED -/
-example : parse 0 (Slice.exact (hdr 10 68 3 ++ packetInFixed 0xffffffff 18 0 0 0
-      ++ (be16 1 ++ be16 24 ++ Sw2.tlvCat (oxmPairs [⟨0, .u32 7, none⟩])
-        ++ (be16 1 ++ [UInt8.ofNat (2 * 16 + (if false then 1 else 0)), 8])
-        ++ (be64 0x2a ++ zeros 2 ++ ethBytes macA macB 0x88cc [1, 2, 3, 4])))) = .err :=
-  packetIn_nxmNilField_rejected 3 68 0xffffffff 18 0 0 0 (oxmPairs [⟨0, .u32 7, none⟩]) (by
-      intro p hp
-      obtain ⟨o, ho, rfl⟩ := List.mem_map.mp hp
-      simp only [List.mem_cons, List.not_mem_nil, or_false] at ho
-      subst ho
-      exact oxm_basic ⟨0, .u32 7, none⟩ ⟨"InPortField", rfl, trivial, by simp⟩) 16 (by decide) false 8 24 _ (by decide) 0 _ (Slice.exact_wf _)
-    (Sw.exact_bytes _)
-
-/-- COUNTEREXAMPLE instance: packet-in whose match holds ct_state (decodable) and then recirc_id (NXM_NX_RECIRC_ID, 36) -/
-example : parse 0 (Slice.exact (hdr 10 68 3 ++ packetInFixed 0xffffffff 18 0 0 0
-      ++ (be16 1 ++ be16 24 ++ Sw2.tlvCat (nxmPairs [⟨105, .m32 0x21, some (.m32 0x23)⟩])
-        ++ (be16 1 ++ [UInt8.ofNat (2 * 36 + (if false then 1 else 0)), 4])
-        ++ (be32 5 ++ zeros 2 ++ ethBytes macA macB 0x88cc [1, 2, 3, 4])))) = .err :=
-  packetIn_nxmNilField_rejected 3 68 0xffffffff 18 0 0 0 (nxmPairs [⟨105, .m32 0x21, some (.m32 0x23)⟩]) (by
-      intro p hp
-      obtain ⟨o, ho, rfl⟩ := List.mem_map.mp hp
-      simp only [List.mem_cons, List.not_mem_nil, or_false] at ho
-      subst ho
-      exact oxm_nxm ⟨105, .m32 0x21, some (.m32 0x23)⟩ (sampleNxms_wf _ (by simp [sampleNxms]))) 36 (by decide) false 4 24 _ (by decide) 0 _ (Slice.exact_wf _)
-    (Sw.exact_bytes _)
 
 /-- packet-in whose match holds class-1 field 50 -/
 example : parse 0 (Slice.exact (hdr 10 60 3 ++ packetInFixed 0xffffffff 18 0 0 0
@@ -1251,23 +1484,33 @@ example : parse 0 (Slice.exact (hdr 10 60 3 ++ packetInFixed 0xffffffff 18 0 0 0
   packetIn_nxmUnknownField_rejected 3 60 0xffffffff 18 0 0 0 [] (by simp) 50 (by decide) false 4 12 _ (by decide) 0 _
     (Slice.exact_wf _) (Sw.exact_bytes _)
 
-/-- COUNTEREXAMPLE instance: flow-removed of a flow that matched `ip_frag = no` (NXM_NX_IP_FRAG 26, value 0, mask 3) -/
-example : parse 0 (Slice.exact (hdr 11 64 3 ++ flowRemovedFixed 0xc00c1e 100 1 7 60 999 30 0 12 3400
-      ++ (be16 1 ++ be16 10 ++ Sw2.tlvCat [] ++ (be16 1 ++ [UInt8.ofNat (2 * 26 + (if true then 1 else 0)), 2])
-        ++ ([0, 3] ++ zeros 6)))) = .err :=
-  flowRemoved_nxmNilField_rejected 3 64 0xc00c1e 100 1 7 60 999 30 0 12 3400 [] (by simp) 26 (by decide) true 2 10 _ (by decide)
-    (by decide) 0 _ (Slice.exact_wf _) (Sw.exact_bytes _)
+/-- COUNTEREXAMPLE instance: the same tunnel id in the ORIGINAL Nicira class NXM_0 (class 0; 00 00 20 08 | …) — a class
+    `DecodeMatchField` does not know: the field decoder panics -/
+example : MatchField.unmarshal MatchField.zero (Slice.exact (be16 0 ++ [0x20, 8] ++ be64 0x2a)) = .panic :=
+  otherClass_field_panics 0 (by decide) (by decide) (by decide) 0x20 8 _ (Slice.exact_wf _) _ (Sw.exact_bytes _)
 
-/-- COUNTEREXAMPLE instance: a flow-stats reply with two flows, the first matching `ip_frag = no`, the second everything:
-    the whole reply is rejected -/
+/-- … the same by evaluation -/
+example : MatchField.unmarshal MatchField.zero (Slice.exact [0, 0, 0x20, 8, 0, 0, 0, 0, 0, 0, 0, 0x2a]) = .panic := rfl
+
+/-- COUNTEREXAMPLE instance: a packet-in whose match holds in_port 7 and then a TLV of class 0: REJECTED -/
+example : parse 0 (Slice.exact (hdr 10 68 3 ++ packetInFixed 0xffffffff 18 0 0 0
+      ++ (be16 1 ++ be16 24 ++ Sw2.tlvCat inPort7 ++ (be16 0 ++ [0x20, 8])
+        ++ (be64 0x2a ++ zeros 2 ++ ethBytes macA macB 0x88cc [1, 2, 3, 4])))) = .err :=
+  packetIn_badField_rejected 3 68 0xffffffff 18 0 0 0 inPort7 inPort7_dec _
+    (.inr (Sw3.fieldPanic_otherClass 0 (by decide) (by decide) (by decide) 0x20 8)) 24 _ (by decide) 0 _ (Slice.exact_wf _)
+    (Sw.exact_bytes _)
+
+/-- COUNTEREXAMPLE instance: a flow-stats reply with two flows, the first matching on a TLV of class 0, the second
+    everything: the whole reply is rejected -/
 example : parse 0 (Slice.exact (hdr 19 136 3 ++ be16 1 ++ be16 0 ++ zeros 4 ++ Sw2.recsBytes []
-      ++ (flowStatsFixed (UInt16.ofNat (48 + (4 + (Sw2.tlvCat []).length + 4 + ([0, 3] ++ zeros 6).length) + ([] : Bytes).length))
+      ++ (flowStatsFixed (UInt16.ofNat (48 + (4 + (Sw2.tlvCat []).length + (be16 0 ++ [53, 2]).length + ([0, 3] ++ zeros 6).length)
+              + ([] : Bytes).length))
             3 100 5000 0x8000 60 0 1 0xc00c1e 12 3400
-          ++ (be16 1 ++ be16 10 ++ Sw2.tlvCat [] ++ (be16 1 ++ [UInt8.ofNat (2 * 26 + (if true then 1 else 0)), 2])
-            ++ ([0, 3] ++ zeros 6))
+          ++ (be16 1 ++ be16 10 ++ Sw2.tlvCat [] ++ (be16 0 ++ [53, 2]) ++ ([0, 3] ++ zeros 6))
           ++ [])
       ++ (flowStatsFixed 56 3 100 5000 0x8000 60 0 1 0xc00c1e 12 3400 ++ matchEmpty))) = .err :=
-  flowStatsReply_nxmNilField_rejected 3 0 136 [] (by simp) fxA [] (by simp) 26 (by decide) true 2 10 ([0, 3] ++ zeros 6) []
+  flowStatsReply_panicField_rejected 3 0 136 [] (by simp) fxA [] (by simp) _
+    (Sw3.fieldPanic_otherClass 0 (by decide) (by decide) (by decide) 53 2) 10 ([0, 3] ++ zeros 6) []
     (by decide) (by decide) _ (by decide) 0 _ (Slice.exact_wf _) (Sw.exact_bytes _)
 
 end Examples
